@@ -34,7 +34,7 @@ def focus():
   return [T.abort, T._stop_phase_executor, T._execute_abortable_sequence, T._execute_teardown_sequence,  # pylint: disable=protected-access
           T._execute_test_teardown, T._thread_proc, T._execute_test_start, T._execute_phase, T._execute_phase_group,  # pylint: disable=protected-access
           P._execute_phase_once, P.stop, P.reset_stop, P.execute_phase,  # pylint: disable=protected-access
-          pe.PhaseExecutorThread.join_or_die, th.KillableThread.run, th.KillableThread.kill,
+          pe.PhaseExecutorThread.join_or_die, th.KillableThread.run, th.KillableThread.kill, th.KillableThread.async_raise,
           td.Test.abort_from_sig_int, td.Test.execute, ts.TestState.abort, ts.TestState._finalize, ts.TestState.running_phase_context]  # pylint: disable=protected-access
 
 
@@ -121,7 +121,7 @@ def build(program, log):
   elif program == 'group_tdwait':
     nodes = [h.PhaseGroup(setup=[with_plug(mk('s', 'setup'))], main=[mk('m1', 'main')],
                           teardown=[mk('tw', 'teardown', waits=True), mk('t2', 'teardown')]), mk('after', 'main')]
-  elif program == 'group_deaf':
+  elif program in ('group_deaf', 'group_deaf0'):
     nodes = [h.PhaseGroup(setup=[with_plug(mk('s', 'setup'))], main=[mk('m1', 'main', deaf=True), mk('m2', 'main')],
                           teardown=[mk('t1', 'teardown'), mk('t2', 'teardown')]), mk('after', 'main')]
   elif program == 'repeat':
@@ -273,6 +273,10 @@ def scenario(program, aborts, via, mode=None):
     res = None
     reexec = None
     OVER[0] = False
+    if program == 'group_deaf0':
+      # the station is configured not to wait for cancelled phases at all
+      from openhtf.util import configuration  # pylint: disable=g-import-not-at-top
+      configuration.CONF.load(cancel_timeout_s=0)
     runtime.vlog('execute-call')
     try:
       res = test.execute(test_start=test_start)
@@ -281,6 +285,8 @@ def scenario(program, aborts, via, mode=None):
     finally:
       sched.signals_left = 0
       OVER[0] = True
+      if program == 'group_deaf0':
+        configuration.CONF.reset()
     runtime.vlog('execute-return', res)
     n_first = len(recs)
     if via == 'sigint' and res == 'KeyboardInterrupt' and not recs and not any(e[0] == 'body-start' for e in sched.events):
@@ -520,6 +526,7 @@ def _analyse_raw(cfg, ex):
 GROUPS = {
     'group': [(['s'], ['m1', 'm2'], ['t1', 't2'])],
     'group_deaf': [(['s'], ['m1', 'm2'], ['t1', 't2'])],
+    'group_deaf0': [(['s'], ['m1', 'm2'], ['t1', 't2'])],
     'group_tdwait': [(['s'], ['m1'], ['tw', 't2'])],
     'nested_main': [(['s'], ['m1', 's2', 'n1', 'u1', 'm2'], ['t1']), (['s2'], ['n1'], ['u1'])],
     # (the group nested in the teardown is itself a teardown node of the outer group: all of it runs, once)
